@@ -431,8 +431,13 @@ func vfGenC02(rt *rapid.T) vfC02Case {
 				Frac:  rapid.SampledFrom([]int64{0, 0, 15, 15, 14, 12, 8, 4, 17, 20, 32}).Draw(rt, "liefrac"),
 			})
 		}
+		if rapid.IntRange(0, 2).Draw(rt, "lie_oldproto") == 1 {
+			// the protocols without a per-chunk step (0/1) and without resume (2) have the fewest cross-checks for a count or size
+			cs.Cfg.Protocol = rapid.SampledFrom([]int{0, 1, 2}).Draw(rt, "lie_proto")
+			cs.Prev = 0
+		}
 	}
-	if cs.Prev > 0 && cs.Cfg.Protocol >= 3 && rapid.IntRange(0, 1).Draw(rt, "jlying") == 0 {
+	if cs.Prev > 0 && cs.Cfg.Protocol >= 3 && rapid.IntRange(0, 2).Draw(rt, "jlying") == 1 {
 		// a resumed transfer: the hash exchange carries steps and verdicts that decide where the rest of the file goes
 		nf = rapid.IntRange(0, 1).Draw(rt, "nfaults_with_jlie")
 		l := vfJLie{Back: rapid.IntRange(0, 2).Draw(rt, "jback") != 0}
